@@ -65,9 +65,7 @@ Print Assumptions C02_read_io.
    the reader itself), identifiers of e reserved, lv a reserved identifier that is absent or an undriven free node.
    Key lemma (C02_result_cond, tree induction): a node returned by c_cond that is one of the reader's gates is fresh for the
    start graph, a non-free gate whose fan-in does not contain it, and nothing reads it.
-   Missing for C02_read_denotes_full: (b) the fold over the items with the set of nodes no later statement touches (defined
-   nets, inner gates), using C02_prim_instance_exact for instances; (c) the converse direction (extending a model of the module
-   to the synthetic nodes) *)
+   The fold over the items is C02_read_denotes_sound (4) below, the converse direction C02_read_denotes_conv (5). *)
 Theorem C02_assign_correct : ∀ k st lv e st',
   c_assign k st (lv, e) = Ok st' →
   gst k st → ties_ok k st.1 → list_to_set (ids_cond e) ⊆ k_rsv k →
@@ -172,8 +170,19 @@ Theorem C02_read_bb_pins : ∀ rsv bbs m C,
 Proof. exact read_bb_pins. Qed.
 Print Assumptions C02_read_bb_pins.
 
-(* full statement for whole modules.  Every conjunct of its conclusion is proved for every *successful* read (C02_read_denotes,
-   C02_read_bb_pins); success itself is proved for blackbox-free modules under the identifier guard of (7)
+(* (10) everything C02_read_denotes_full claims about the returned circuit, for every successful read of a module of the subset *)
+Theorem C02_read_denotes_of_success : ∀ rsv bbs m C,
+  in_subset bbs m = true → list_to_set (module_ids m) ⊆ rsv → read rsv bbs m = Ok C →
+  c_name C = m_name m ∧
+  c_bbs C = list_to_map ((λ x, (x.1.1, x.1.2)) <$> bb_insts bbs m) ∧
+  (∀ x, x ∈ bb_insts bbs m → bb_ok (c_g C) x = true) ∧
+  (∀ w, consistent (c_g C) w → ∃ x, sat_module m w x) ∧
+  (∀ v x, sat_module m v x → ∃ w, consistent (c_g C) w ∧ ∀ n, n ∈ used_nets m → w n = v n).
+Proof. exact read_denotes_of_success. Qed.
+Print Assumptions C02_read_denotes_of_success.
+
+(* full statement for whole modules.  Every conjunct of its conclusion is proved for every *successful* read
+   (C02_read_denotes_of_success); success itself is proved for blackbox-free modules under the identifier guard of (7)
    (C02_read_denotes_full_bbfree).  Not proved: success of the read for modules WITH blackbox instances - as stated here it
    lacks the identifier guard names_ok / outs_driven of (7), and a synthetic gate name may equal a pin name (a dotted net `x.q`
    next to an instance `not_x`), in which case add_blackbox raises.  Success is decided per generated module by Run_C02.holds
